@@ -267,7 +267,7 @@ def gen_probes():
 
 THREADS_SRC = r'''
 // Executions of what the trait table admits: real cross-thread use under a data-race detector.
-use any_vec::any_value::{AnyValue, AnyValueCloneable, AnyValueMut, AnyValueWrapper};
+use any_vec::any_value::{AnyValue, AnyValueCloneable, AnyValueMut, AnyValueTypeless, AnyValueWrapper};
 use any_vec::traits::*;
 use any_vec::AnyVec;
 use std::sync::mpsc;
